@@ -11,6 +11,7 @@ import (
 	"strconv"
 	"strings"
 	"sync"
+	"syscall"
 	"time"
 )
 
@@ -93,6 +94,7 @@ func RunParent(p *Prop, tier string) int {
 
 	results := make([]*Result, nw)
 	errs := make([]string, nw)
+	crashes := make([]*Violation, nw)
 	var wg sync.WaitGroup
 	for i := 0; i < nw; i++ {
 		wg.Add(1)
@@ -116,7 +118,18 @@ func RunParent(p *Prop, tier string) int {
 				if err != nil {
 					s := stderr.String()
 					if len(s) > 3000 {
-						s = s[len(s)-3000:]
+						s = s[:1500] + "\n...\n" + s[len(s)-1500:]
+					}
+					if mb, merr := os.ReadFile(out + ".marker"); merr == nil {
+						if scope, idx := DecodeMarker(mb); scope != "" {
+							if _, serr := os.Stat(out); serr != nil {
+								// died while executing a case: a crash-class violation candidate
+								crashes[i] = &Violation{Property: p.ID, Tier: tier, Scope: scope, Index: idx,
+									Signature: p.ID + "/crash/" + crashClass(s, err), Detail: fmt.Sprintf("worker died (%v) while executing this case: %s", err, s), Case: fmt.Sprintf("%s #%d", scope, idx)}
+								results[i] = &Result{Counters: map[string]int64{}}
+								return
+							}
+						}
 					}
 					errs[i] = fmt.Sprintf("worker %d: %v\n%s", i, err, s)
 					return
@@ -149,6 +162,13 @@ func RunParent(p *Prop, tier string) int {
 
 	// aggregate
 	agg := &Result{Counters: map[string]int64{}}
+	for _, cr := range crashes {
+		if cr != nil {
+			agg.Violations = append(agg.Violations, *cr)
+			agg.NViolations++
+			agg.Capped = "a worker died; its shard is incomplete"
+		}
+	}
 	outcomes := map[uint64]struct{}{}
 	for _, r := range results {
 		if r.Error != "" {
@@ -224,7 +244,16 @@ func RunParent(p *Prop, tier string) int {
 		for k := 0; k < 5; k++ {
 			cmd := exec.Command(self, "-replay", path, "-quiet")
 			cmd.Env = append(os.Environ(), "GOMAXPROCS=2")
-			out, _ := cmd.CombinedOutput()
+			out, err2 := cmd.CombinedOutput()
+			if strings.Contains(v.Signature, "/crash/") {
+				// reproduction of a crash = the replay process dies abnormally again (or reports a violation)
+				if ee, isExit := err2.(*exec.ExitError); isExit && (ee.ExitCode() > 2 || ee.ExitCode() < 0 || strings.Contains(string(out), "fatal error:")) || strings.Contains(string(out), "REPRODUCED signature=") {
+					if k >= 1 {
+						break // twice is enough for crashes (each may take long)
+					}
+					continue
+				}
+			}
 			if !strings.Contains(string(out), "REPRODUCED signature="+v.Signature+"\n") {
 				okAll = false
 				fmt.Fprintf(os.Stderr, "replay %d of %s did not reproduce signature %q:\n%s\n", k, path, v.Signature, tail(string(out), 1500))
@@ -319,6 +348,32 @@ func RunWorker(p *Prop, tier string, shard, of int, seed int64, out string) int 
 		budget = 10 * time.Minute
 	}
 	c := NewCtx(p.ID, tier, shard, of, seed, budget)
+	// address-space limit: a runaway allocation ends this worker, not the machine
+	lim := uint64(envInt("VERIF_WORKER_AS_GB", 12)) << 30
+	syscall.Setrlimit(syscall.RLIMIT_AS, &syscall.Rlimit{Cur: lim, Max: lim})
+	if f, err := os.OpenFile(out+".marker", os.O_RDWR|os.O_CREATE|os.O_TRUNC, 0o644); err == nil {
+		if f.Truncate(600) == nil {
+			if mm, err := syscall.Mmap(int(f.Fd()), 0, 600, syscall.PROT_READ|syscall.PROT_WRITE, syscall.MAP_SHARED); err == nil {
+				c.SetMarker(mm)
+			}
+		}
+		f.Close()
+	}
+	// watchdog: a single case that does not end within the limit is a hang (the limit is three
+	// orders of magnitude above the slowest case; it is a backstop, not an oracle)
+	caseLimit := time.Duration(envInt("VERIF_CASE_LIMIT_S", 300)) * time.Second
+	go func() {
+		last, since := int64(-1), time.Now()
+		for {
+			time.Sleep(500 * time.Millisecond)
+			if t := c.Tick(); t != last {
+				last, since = t, time.Now()
+			} else if last >= 0 && time.Since(since) > caseLimit {
+				fmt.Fprintf(os.Stderr, "WATCHDOG: case did not finish within %v\n", caseLimit)
+				os.Exit(3)
+			}
+		}
+	}()
 	if msg := Guard(func() { p.Run(c) }); msg != "" {
 		c.R.Error = "driver " + msg
 	}
@@ -366,4 +421,20 @@ func RunReplay(lookup func(string) *Prop, path string, quiet bool) int {
 		return 0
 	}
 	return 1
+}
+
+func crashClass(stderr string, err error) string {
+	switch {
+	case strings.Contains(stderr, "out of memory") || strings.Contains(stderr, "cannot allocate memory"):
+		return "out-of-memory"
+	case strings.Contains(stderr, "stack overflow") || strings.Contains(stderr, "goroutine stack exceeds"):
+		return "stack-overflow"
+	case strings.Contains(stderr, "WATCHDOG"):
+		return "hang"
+	case strings.Contains(stderr, "fatal error:"):
+		return "fatal"
+	case strings.Contains(fmt.Sprint(err), "killed"):
+		return "killed"
+	}
+	return "died"
 }
